@@ -434,3 +434,61 @@ def check_code_forms(ctx):
                       sample={'function': fi.key, 'test': norm(cur, 80)})
     if n < 15:
         raise AnalysisError(f'only {n} code-form tests found')
+
+
+def check_view_snapshots(ctx):
+    """R3.10 - a view is (base, field, _start, _stop) and nothing else.  The coordinates are re-clipped against the live field before every use
+    (R2.4) and maintained across the view's own edits (R3.5 / R3.6); everything else a view needs (the docstring offset of a `_body` view, the
+    length of the field) it asks the tree when it needs it.  An additional attribute stored on the view whose value is computed from the tree is a
+    second coordinate that nothing refreshes: it is right when the view is made and stale after the next edit made by any other route."""
+    ctx.rule('R3.10', 'a view stores nothing computed from the tree besides its declared coordinates (base, field, _start, _stop)', 4)
+    m = ctx.repo.mod('view')
+    base_cls = m.classes.get('FSTView')
+    if base_cls is None:
+        raise AnalysisError('class FSTView not found')
+    init = m.func('FSTView.__init__')
+    declared = set()
+    for fi in init:
+        for x in walk_no_nested(fi.node):
+            # the coordinates are what the constructor is *given*: `self.X = <parameter>`
+            if isinstance(x, ast.Assign) and isinstance(x.value, ast.Name) and x.value.id in fi.params():
+                for t in x.targets:
+                    if isinstance(t, ast.Attribute) and isinstance(t.value, ast.Name) and t.value.id == 'self':
+                        declared.add(t.attr)
+    if len(declared) < 3:
+        raise AnalysisError(f'FSTView.__init__ declares only {sorted(declared)}')
+    view_classes = {n for n, c in m.classes.items() if n == 'FSTView' or any(norm(b).startswith('FSTView') for b in c.bases)}
+    n = 0
+    for q, fis in m.funcs.items():
+        if q.count('.') != 1 or q.split('.')[0] not in view_classes:
+            continue
+        for fi in fis:
+            if isinstance(fi.node, ast.Lambda):
+                continue
+            ps = fi.params()
+            if not ps or ps[0] != 'self':
+                continue
+            for x in walk_no_nested(fi.node):
+                tgs, val = [], None
+                if isinstance(x, ast.Assign):
+                    tgs, val = x.targets, x.value
+                elif isinstance(x, (ast.AnnAssign, ast.AugAssign)) and x.value is not None:
+                    tgs, val = [x.target], x.value
+                for t in tgs:
+                    if not (isinstance(t, ast.Attribute) and isinstance(t.value, ast.Name) and t.value.id == 'self'):
+                        continue
+                    n += 1
+                    if t.attr in declared:
+                        ctx.ok('R3.10', f'{fi.qualname}|{norm(x, 70)}')
+                        continue
+                    from_tree = any((isinstance(y, ast.Name) and y.id == 'base') or
+                                    (isinstance(y, ast.Attribute) and y.attr in ('base', 'a', 'f', 'parent', 'pfield')) or
+                                    (isinstance(y, ast.Call) and call_name(y) in ('len', '_len_field', '_base_indices'))
+                                    for y in ast.walk(val))
+                    ctx.check('R3.10', not from_tree, 'view', fi.qualname, norm(x, 70),
+                              f'`self.{t.attr}` is not one of the view\'s coordinates {sorted(declared)} and its value is computed from the tree: nothing '
+                              f're-computes it when the tree is edited through another route (the docstring of a `_body` view\'s owner is removed, an '
+                              f'element is inserted before the view), so every later length / index / slice of this view is off', x.lineno,
+                              sample={'method': fi.key, 'store': norm(x, 70)})
+    if n < 4:
+        raise AnalysisError(f'only {n} attribute stores found in the view classes')
